@@ -284,7 +284,14 @@ def g_token(rng):
     grammar token; `plain` lexemes are classified unambiguously when separated by a space"""
     k = rng.choice(['IDENT', 'IDENT', 'FUNCTION', 'ATKEYWORD', 'RESERVED', 'HASH', 'NUMBER', 'PERCENTAGE',
                     'DIMENSION', 'UNICODE-RANGE', 'STRING', 'STRING', 'URI', 'URI', 'OP', 'CDO', 'CDC', 'COMMENT',
-                    'CHAR', 'CHAR'])
+                    'CHAR', 'CHAR', 'ANDPAREN', 'CHARSET'])
+    if k == 'CHARSET':
+        # tokenize2.py:236-241: `@charset` directly followed by a space is CHARSET_SYM, the space belongs to it
+        return ('CHARSET_SYM', '@charset ', '@charset ', k)
+    if k == 'ANDPAREN':
+        # tokenize2.py:181-194: an IDENT directly followed by '(' is a FUNCTION - except `and` (media queries)
+        v = rng.choice(['and', 'AND', 'And', 'aNd'])
+        return (('IDENT', 'CHAR'), v + '(', (v, '('), k)
     if k == 'IDENT':
         s, v, _ = g_ident(rng)
         return ('IDENT', s, v, k)
@@ -424,7 +431,10 @@ def g_sheet(rng, safe):
     text, expect = '', []
     for i, (typ, s, v, kind) in enumerate(toks):
         text += s
-        expect.append((typ, v))
+        if isinstance(typ, tuple):
+            expect += list(zip(typ, v))
+        else:
+            expect.append((typ, v))
         if i + 1 < n:
             if safe:
                 sep = ' '
@@ -480,6 +490,11 @@ def class_boundaries(d):
         walk(d[k])
     pts |= {0, 0xD800, 0xDFFF, 0xFFFF, 0x10000, 0x10FFFF, 0x212A, 0x130, 0xFEFF, 0x85, 0x2028}
     return sorted(pts)
+
+
+FALLBACK_POINTS = [0, 8, 9, 10, 11, 12, 13, 14, 31, 32, 33, 34, 35, 36, 37, 38, 39, 40, 41, 42, 43, 44, 45, 46, 47, 48,
+                   57, 58, 59, 60, 61, 62, 63, 64, 65, 70, 71, 90, 91, 92, 93, 94, 95, 96, 97, 102, 103, 122, 123, 124,
+                   125, 126, 127, 128, 0xD800, 0xDFFF, 0xFEFF, 0xFFFF, 0x10000, 0x10FFFF, 0x212A, 0x130]
 
 
 def pattern_alphabet(r):
@@ -549,16 +564,29 @@ class C05(Check):
         return self._data
 
     # ------------------------------------------------------------------------------------------
+    def setup(self, ctx):
+        try:
+            d = self.data(ctx)
+        except Exception as e:      # translator cannot read the source: the implementation-side oracle still runs
+            d = None
+            ctx.notes['translator_failed'] = repr(e)
+        self.bom_re = re.compile('(?:%s)' % dict(d['expanded'])['BOM']) if d else re.compile('\xfe\xff|\xef\xbb\xbf')
+        return d
+
     def run(self, ctx):
-        d = self.data(ctx)
-        self.bom_re = re.compile('(?:%s)' % dict(d['expanded'])['BOM'])
+        d = self.setup(ctx)
         self.run_corpus(ctx)
         self.check_lower(ctx)
-        self.corr_re(ctx, d)
-        self.corr_helpers(ctx)
         texts = self.gen_texts(ctx, d)
         self.corr_tokenize(ctx, texts)
+        if d:
+            self.corr_re(ctx, d)
+        try:
+            self.corr_helpers(ctx)
+        except (ValueError, TimeLimit) as e:
+            ctx.notes['helpers_skipped'] = repr(e)
         self.oracle_classify(ctx)
+        self.oracle_completion(ctx)
         self.oracle_errors(ctx)
 
     # -- corpus -----------------------------------------------------------------------------------
@@ -635,9 +663,6 @@ class C05(Check):
         import sys as _sys
         rng = ctx.sub_rng('helpers')
         t = Tokenizer()
-
-        def _repl(m):           # same text as the closure in tokenize (it is not reachable from outside)
-            return None
         lines, cases = [], []
         alpha = list('\\\\\\\\0123456789abcdefABCDEFgG \t\r\n\f"x') + ['\r\n', '\\5c', '\\5C ', '\\110000', '\\10ffff',
                                                                          '\\0', '\\d800', 'é', 'K', 'İ']
@@ -652,9 +677,7 @@ class C05(Check):
         out = ctx.driver(lines) if ctx.model_ok else [None] * len(lines)
         for (kind, s), m in zip(cases, out):
             if kind == 'subu':
-                # the value of an IDENT token whose text is s is not available for arbitrary s; use the
-                # independent specification on the oracle side and the model on the other, and tie both to the
-                # implementation through a STRING token below (corr_tokenize) — here: spec vs model vs impl regex
+                # impl (through a COMMENT carrier) vs independent specification (oracle) vs model (correspondence)
                 got = 'OK ' + enc(impl_unicodesub(t, s))
                 want = spec_unescape(s)
                 ctx.case(key=(kind, s), nontrivial='\\' in s, kind='helper:subu')
@@ -693,7 +716,7 @@ class C05(Check):
         for s in fixed:
             texts.append((s, 'fixed'))
         # boundary stream: each class boundary in a few contexts
-        pts = class_boundaries(d)
+        pts = class_boundaries(d) if d else FALLBACK_POINTS
         ctxs = ['%s', '%sa', 'a%s', '\\%s', '\\%s ', '"%s', '"%s"', '#%s', '@%s', '1%s', '-%s', 'url(%s)', '/*%s*/', 'u+%s',
                 'a %s', '\\4%s', '\n%s']
         for c in pts:
@@ -760,13 +783,39 @@ class C05(Check):
                 for t in toks:
                     ctx.dist['type:' + str(t[0])] += 1
                 got = 'DONE | ' + show_tokens(toks)
-                self.oracle_one(ctx, text, full, doc, toks)
+                self.oracle_shrunk(ctx, text, full, doc, toks)
             if m is not None:
                 head, mt = parse_reply(m)
                 mine = ('DONE | ' + show_tokens(mt)) if head.startswith('DONE') else head
                 if mine.strip() != got.strip():
                     ctx.disagree('tokenize', {'text': enc(text), 'repr': repr(text), 'full': full, 'doComments': doc},
                                  got, mine)
+
+    def oracle_shrunk(self, ctx, text, full, doc, toks):
+        """run the oracle; a violation that is not a known finding is minimised (delta debugging on the text)"""
+        p = Probe()
+        self.oracle_one(p, text, full, doc, toks)
+        for clause, w, detail, known in p.v:
+            if known or len(ctx.violations) >= 8:
+                ctx.violate(clause, w, detail, known=known)
+                continue
+
+            def fails(t2):
+                try:
+                    tk = impl_tokens(t2, full, doc)
+                except Exception:   # noqa
+                    return False
+                q = Probe()
+                self.oracle_one(q, t2, full, doc, tk)
+                return [x for x in q.v if x[0] == clause and not x[3]]
+            small = shrink(text, fails)
+            hit = fails(small)
+            if hit and small != text:
+                c2, w2, d2, _ = hit[0]
+                w2 = dict(w2, shrunk_from=enc(text))
+                ctx.violate(c2, w2, d2)
+            else:
+                ctx.violate(clause, w, detail)
 
     def in_bom_region(self, text):
         return self.bom_re.match(text) is not None
@@ -781,6 +830,9 @@ class C05(Check):
             return
         if not full and n_eof:
             ctx.violate('no end marker outside full-sheet mode', w, {'tokens': show_tokens(toks)})
+            return
+        if not doc and any(t[0] == 'COMMENT' for t in toks):
+            ctx.violate('doComments=False: comments are filtered out', w, {'tokens': show_tokens(toks)})
             return
         body = [t for t in toks if t[0] != 'EOF']
         starts = line_starts(text)
@@ -893,7 +945,10 @@ class C05(Check):
             kinds = [t[3] for t in gtoks]
             lex = []
             for i, t in enumerate(gtoks):
-                lex.append(t[1])
+                if isinstance(t[0], tuple):
+                    lex += list(t[2])
+                else:
+                    lex.append(t[1])
                 if i + 1 < len(gtoks):
                     lex.append(' ')
             for full in (False, True):
@@ -913,10 +968,62 @@ class C05(Check):
                                        and g[1] == spec_value_two_pass('STRING', lx))
                             for g, e, lx in zip(got, expect, lex)):
                         known = 'C05-clean-decoded-newline'
+                    wtext, wexp, wgot = text, expect, got
+                    if not known:
+                        # minimise: the first lexeme that is not recovered when tokenised on its own
+                        for t in gtoks:
+                            e1 = list(zip(t[0], t[2])) if isinstance(t[0], tuple) else [(t[0], t[2])]
+                            try:
+                                g1 = [(x[0], x[1]) for x in impl_tokens(t[1], full, True) if x[0] != 'EOF']
+                            except Exception:   # noqa
+                                continue
+                            if g1 != e1:
+                                wtext, wexp, wgot = t[1], e1, g1
+                                break
                     ctx.violate('a text produced from a known sequence of CSS tokens with unambiguous separators is '
                                 'recovered with exactly those token types and values',
-                                {'text': enc(text), 'repr': repr(text), 'full': full, 'doComments': True},
-                                {'expected': expect, 'got': got}, known=known)
+                                {'text': enc(wtext), 'repr': repr(wtext), 'full': full, 'doComments': True},
+                                {'expected': wexp, 'got': wgot}, known=known)
+
+    # -- completion oracle: an unterminated last token of a full sheet = the terminated one --------------------
+    def oracle_completion(self, ctx):
+        rng = ctx.sub_rng('completion')
+        n = 0
+        while n < ctx.n(1500, 40000):
+            text, expect, gtoks = g_sheet(rng, True)
+            typ, lexeme = gtoks[-1][0], gtoks[-1][1]
+            if typ == 'STRING':
+                cut = 1
+            elif typ == 'COMMENT':
+                cut = 2
+            elif typ == 'URI':
+                cut = 1
+                body = lexeme[:-1].rstrip(' \t\r\n\f')
+                if body and body[-1] in '"\'' and rng.random() < 0.5 and lexeme[-2] in '"\'':
+                    cut = 2         # drop the closing quote of the inner string too
+            else:
+                continue
+            n += 1
+            trunc = text[:-cut]
+            try:
+                a = [(t[0], t[1]) for t in impl_tokens(text, True, True)]
+                b = [(t[0], t[1]) for t in impl_tokens(trunc, True, True)]
+            except Exception as e:   # noqa
+                ctx.violate('tokenising any text terminates', {'text': enc(trunc), 'repr': repr(trunc)}, repr(e))
+                continue
+            ctx.case(key=('completion', trunc), nontrivial=True, kind='completion:' + typ)
+            if a != b:
+                lx = lexeme[:-cut]
+                try:
+                    b1 = [(t[0], t[1]) for t in impl_tokens(lx, True, True)]
+                    a1 = [(t[0], t[1]) for t in impl_tokens(lexeme, True, True)]
+                except Exception:    # noqa
+                    a1 = b1 = None
+                wt = lx if a1 is not None and a1 != b1 else trunc
+                ctx.violate('full-sheet mode: an unterminated comment, string or url( is completed at the end of input',
+                            {'text': enc(wt), 'repr': repr(wt), 'full': True, 'doComments': True, 'cut': cut,
+                             'complete': enc(lexeme if wt is lx else text)},
+                            {'terminated': a1 if wt is lx else a, 'unterminated': b1 if wt is lx else b})
 
     # -- error reports ------------------------------------------------------------------------------------
     def oracle_errors(self, ctx):
@@ -978,7 +1085,7 @@ class C05(Check):
                     w = b['input']
                     break
         if 'text' in w and 'call' not in w:
-            self.bom_re = re.compile('(?:%s)' % dict(self.data(ctx)['expanded'])['BOM'])
+            self.setup(ctx)
             text = dec(w['text'])
             modes = [(w['full'], w['doComments'])] if 'full' in w and 'doComments' in w else MODES
             save, self_modes = None, modes
@@ -1006,6 +1113,31 @@ class C05(Check):
             self.run(ctx)
 
 
+class Probe:
+    """stands in for ctx while a candidate input is probed"""
+    def __init__(self):
+        self.v = []
+
+    def violate(self, clause, witness, detail=None, known=None):
+        self.v.append((clause, witness, detail, known))
+
+
+def shrink(text, fails):
+    """delta debugging: smallest text (by removing chunks) on which `fails` still holds"""
+    n = max(1, len(text) // 2)
+    while n >= 1:
+        i, changed = 0, False
+        while i < len(text):
+            cand = text[:i] + text[i + n:]
+            if cand != text and fails(cand):
+                text, changed = cand, True
+            else:
+                i += n
+        if not changed:
+            n //= 2
+    return text
+
+
 def is_comments(s):
     """s is a (possibly empty) sequence of complete comments"""
     i = 0
@@ -1020,18 +1152,13 @@ def is_comments(s):
 
 
 def impl_unicodesub(t, s):
-    """unicodesub with the real `_repl`: `_repl` is a closure of tokenize; reach it through a token whose whole
-    text is unescaped verbatim — a COMMENT would need delimiters, so recover the closure from the generator frame"""
-    repl = _REPL.get('f')
-    if repl is None:
-        gen_ = t.tokenize('x')
-        next(gen_)
-        repl = _REPL['f'] = gen_.gi_frame.f_locals['_repl']
-        gen_.close()
-    return t.unicodesub(repl, s)
-
-
-_REPL = {}
+    """unicodesub with the real `_repl` (a closure of tokenize, not reachable from outside): a COMMENT token is
+    unescaped and not string-cleaned, so the value of `/*` + s + `*/` is `/*` + unicodesub(_repl, s) + `*/`
+    (s must not contain `*` or `/`)"""
+    toks = impl_tokens('/*' + s + '*/', False, True)
+    if len(toks) != 1 or toks[0][0] != 'COMMENT' or not (toks[0][1].startswith('/*') and toks[0][1].endswith('*/')):
+        raise ValueError('comment carrier not tokenised as one COMMENT: %r' % (toks,))
+    return toks[0][1][2:-2]
 
 
 CHECK = C05()
